@@ -6,7 +6,8 @@ from core import hx
 from runner import Case
 from props import _e_util as U
 
-THEOREMS = []
+THEOREMS = ["C13.heap_store", "C13.heap_parent", "C13.heap_tree", "C13.heap_empty_refused",
+            "C13.nested_mirror", "C13.nested_accepted_iff"]
 PROOF_IMPORTS = ["BigtreeProofs.Properties.C13"]
 NAMED_REJ = ("ValueError",)
 LIBS = ["list", "pd", "pdobj", "pl"]
